@@ -115,26 +115,53 @@ PW = f"{PKG}/src/core/pw_wrap.rs"
 
 def unit_pbkw():
     fn = [f"{PW}::{f}" for f in ("pw_wrap_key", "pw_unwrap_key", "get_params", "wrap_keys", "kdf", "auth")]
-    hs = [Harness("wrap_is_spec_32_default", ["C07", "C05", "C16"], complete=False, bound="local key, default parameters (64 MiB, 2, 1), 2-byte password", functions=fn),
-          Harness("wrap_is_spec_64_custom", ["C07", "C05", "C16"], complete=False, bound="secret key, mem=8MiB,time=3,para=1, 1-byte password", functions=fn),
-          Harness("wrap_is_spec_64_para2", ["C07", "C05"], complete=False, bound="secret key, mem=8MiB,time=3,para=2, 1-byte password", functions=fn,
-                  desc="probe: the format's parallelism field with a value other than 1"),
-          Harness("wrap_is_spec_32_memfloor", ["C07", "C05"], complete=False, bound="local key, mem=8MiB+1023 bytes,time=2,para=1", functions=fn,
-                  desc="probe: memory cost that is not a multiple of 1024 bytes"),
-          Harness("unwrap_accepts_spec_64_para2", ["C07", "C05"], complete=False, bound="secret key, mem=8MiB,time=3,para=2; salt, nonce symbolic", functions=fn,
-                  desc="probe: the format's parallelism field with a value other than 1"),
-          Harness("unwrap_accepts_spec_32_memfloor", ["C07", "C05"], complete=False, bound="local key, mem=8MiB+1023 bytes,time=2,para=1; salt, nonce symbolic", functions=fn,
-                  desc="probe: memory cost that is not a multiple of 1024 bytes")]
+    byc = " (wrap_keys by its contract, proved in wrap_keys_contract_h)"
+    hs = [Harness("wrap_keys_contract_h", ["C07", "C04"], complete=False, bound="ALL parameter blocks, salts, 2-byte passwords", functions=[f"{PW}::wrap_keys", f"{PW}::kdf"],
+                  desc="the REAL wrap_keys: acceptance set, error kinds, key derivation == specification"),
+          Harness("params_acceptance_is_spec_h", ["C07"], complete=False, bound="ALL parameter blocks, salts, 2-byte passwords", functions=[f"{PW}::wrap_keys"],
+                  desc="the REAL wrap_keys accepts exactly the specification-valid parameter blocks (same rule as the sibling's pbkdf_contract_h)"),
+          Harness("wrap_is_spec_32_default", ["C07", "C05", "C16"], complete=False, bound="local key, default parameters (64 MiB, 2, 1), 2-byte password" + byc, functions=fn),
+          Harness("wrap_is_spec_64_custom", ["C07", "C05", "C16"], complete=False, bound="secret key, mem=8MiB,time=3,para=1, 1-byte password" + byc, functions=fn),
+          Harness("wrap_is_spec_32_memfloor", ["C07", "C05"], complete=False, bound="local key, mem=8MiB+1023 bytes,time=2,para=1" + byc, functions=fn,
+                  desc="memory cost that is not a multiple of 1024 bytes: floor(mem/1024) KiB as in the specification's Argon2id call"),
+          Harness("unwrap_accepts_spec_32_memfloor", ["C07", "C05"], complete=False, bound="local key, mem=8MiB+1023 bytes,time=2,para=1; salt, nonce symbolic" + byc, functions=fn)]
     for k in (32, 64):
-        b = f"wrapped key length {k}; contents, salt, nonce symbolic"
+        b = f"wrapped key length {k}; contents, salt, nonce symbolic" + byc
         hs += [Harness(f"unwrap_accepts_spec_{k}", ["C07", "C05"], complete=False, bound=b, functions=fn),
                Harness(f"roundtrip_{k}", ["C05"], complete=False, bound=b, functions=fn),
                Harness(f"unwrap_rejects_tamper_{k}", ["C06", "C10"], complete=False, bound=b + "; flip position/bit symbolic", functions=fn, timeout=1800)]
-    for n in (0, 55, 56, 87, 88, 121):
+    for n in (0, 55, 56, 87):
         hs.append(Harness(f"unwrap_short_{n}", ["C04", "C06"], complete=False, bound=f"blob length {n}, all parameter blocks", functions=fn))
+    for n in (88, 121):
+        hs.append(Harness(f"unwrap_len_{n}", ["C04", "C06"], complete=False, bound=f"blob length {n}, all ACCEPTED parameter blocks" + byc, functions=fn))
     hs += [Harness("wrap_fail_closed_h", ["C16"], functions=fn), Harness("canary_inputs_h", ["C05", "C06", "C07"], expect="fail")]
     return mk("v4s_pbkw", PW, ["units/v4s/pbkw.rs"], hs, [A_PW, A_HASH, A_STREAM, A_RNG, A_CMP], "core::pw_wrap::verif")
 
 
+PKE = f"{PKG}/src/core/pke.rs"
+
+
+def unit_pke():
+    fn = [f"{PKE}::{f}" for f in ("seal_key", "unseal_key", "encode", "decode")]
+    hs = [Harness("seal_is_spec_h", ["C07", "C05", "C16"], functions=fn), Harness("unseal_accepts_spec_h", ["C07", "C05"], functions=fn),
+          Harness("roundtrip_h", ["C05", "C16"], functions=fn), Harness("unseal_rejects_tamper_h", ["C06"], functions=fn, timeout=1800),
+          Harness("any_accepted_key_is_usable_h", ["C04"], functions=fn, desc="sealing to every public key the decoder accepts (any 32 bytes): blob or CryptoError, no panic"),
+          Harness("any_accepted_secret_key_is_usable_h", ["C04"], functions=fn, desc="unsealing any 96-byte blob with every secret key the decoder accepts (any 64 bytes): key or CryptoError, no panic"),
+          Harness("seal_fail_closed_h", ["C16"], functions=fn), Harness("pke_key_codec_h", ["C08", "C10"], functions=fn),
+          Harness("canary_inputs_h", ["C05", "C06", "C07"], expect="fail")]
+    for n in (0, 31, 64, 95, 96, 97):
+        hs.append(Harness(f"unseal_len_{n}", ["C04", "C06"], complete=False, bound=f"blob length {n}", functions=fn))
+    return mk("v4s_pke", PKE, ["units/v4s/pke.rs"], hs, [A_X, A_SIG, A_HASH, A_STREAM, A_RNG, A_CMP], "core::pke::verif")
+
+
+def unit_id():
+    fn = [f"{M}::hash_key"]
+    hs = [Harness("id_is_spec_10", ["C13"], complete=False, bound="PASERK text of 10 bytes", functions=fn),
+          Harness("id_is_spec_1", ["C13"], complete=False, bound="PASERK text of 1 byte", functions=fn),
+          Harness("id_domain_separated_h", ["C13"], complete=False, bound="PASERK text of 10 bytes", functions=fn),
+          Harness("canary_inputs_h", ["C13"], expect="fail")]
+    return mk("v4s_id", M, ["units/v4s/id.rs"], hs, [A_HASH], "core::verif")
+
+
 def units():
-    return [unit_local(), unit_public(), unit_pie(), unit_pbkw()]
+    return [unit_local(), unit_public(), unit_pie(), unit_pbkw(), unit_pke(), unit_id()]
